@@ -47,8 +47,8 @@ ASSUMPTIONS = [
     "a change of export_json that keeps the text re-parsable to an equal item (e.g. ASCII instead of unicode "
     "operators) is not a violation of the statement and is not flagged",
 ]
-SHRINK_BUDGET = 150
-SHRINK_SECONDS = 60
+SHRINK_BUDGET = 60
+SHRINK_SECONDS = 20
 
 GEN_THEORIES = ['logic_base', 'nat', 'list', 'real']
 NAT = ["tc", "nat"]
@@ -97,6 +97,9 @@ def setup():
     for n in GEN_THEORIES:
         _ENV[n] = build_env(n)
     self_test()
+    import gc
+    gc.collect()
+    gc.freeze()     # the loaded library is shared copy-on-write with the worker processes
 
 
 def dep_sig(name):
